@@ -243,7 +243,7 @@ class Run:
             self.inconclusive.append("fewer than 2 distinct non-trivial cases")
         evdir = os.environ.get("VF_EVIDENCE_DIR") or os.path.join(VERIF, "evidence")
         os.makedirs(evdir, exist_ok=True)
-        rdir = os.path.join(VERIF, "replays", self.pid)
+        rdir = os.path.join(os.environ.get("VF_EVIDENCE_DIR") or VERIF, "replays", self.pid)   # scratch runs keep their replays apart
         replay_paths = []
         if new:
             os.makedirs(rdir, exist_ok=True)
